@@ -21,7 +21,7 @@ PROP = 'C14'
 MANIFEST = dict(
     category='exploration', design_ref='DESIGN.md §3 C14',
     technique='bounded-exhaustive enumeration of hypernym graphs x ordered pairs x simulate_root x IC weight tables on the real similarity functions vs the documented formulas over a reference graph model (acceptance sets for LCS choice)',
-    text='For every labelled digraph with self-loops on up to 3 nodes, every loop-free digraph on 4 nodes (thorough: DAGs on 5 nodes) and part-of-speech colourings, every ordered pair of synsets and simulate_root value: path must equal 1/(p+1) with p the reference shortest-path length (0.0 when nothing is shared, 1.0 for identical synsets, within [0,1]); lch must equal -log((p+1)/2d) for every tried depth d and raise for d<=0; wup must equal 2k/(i+j+2k) for some reference lowest common hypernym (i, j reference distances, k its depth in nodes), lie in (0,1], be 1.0 for identical synsets and never exceed self-similarity; res/jcn/lin must follow their formulas (incl. the documented zero/infinity cases) for some reference LCS over every weight table (all assignments of {1,2,5} to the nodes); every metric must be symmetric in its arguments; wn.Error must be raised exactly for incompatible parts of speech (a and s compatible) and when nothing is shared without simulate_root. Exact formula comparison on DAGs; on cyclic graphs bounds, symmetry, error rule and termination.',
+    text='For every labelled digraph with self-loops on up to 3 nodes, every loop-free digraph on 4 nodes (thorough: DAGs on 5 nodes) and part-of-speech colourings, every ordered pair of synsets and simulate_root value: path must equal 1/(p+1) with p the reference shortest-path length (0.0 when nothing is shared, 1.0 for identical synsets, within [0,1]); lch must equal -log((p+1)/2d) for every tried depth d and raise for d<=0; wup must equal 2k/(i+j+2k) for some reference lowest common hypernym (i, j reference distances, k its depth in nodes), lie in (0,1], be 1.0 for identical synsets and never exceed self-similarity; res/jcn/lin must follow their formulas (incl. the documented zero/infinity cases) for some reference LCS over every weight table (all assignments of {1,2,5} to the nodes); every metric must be symmetric in its arguments; the same graphs are also presented in expanded mode (stored in an expand lexicon, only 2..n of the nodes present in the queried lexicon, the others seen as *INFERRED* placeholders) for path, lch and wup; wn.Error must be raised exactly for incompatible parts of speech (a and s compatible) and when nothing is shared without simulate_root. Exact formula comparison on DAGs; on cyclic graphs bounds, symmetry, error rule and termination.',
     note='Where the documentation contradicts itself (res: maximum IC vs LCS of highest weight; lin denominator) either documented reading is accepted; a value outside all readings is a violation.',
 )
 
@@ -38,8 +38,15 @@ def check_graph(lid, g, edges, V, obs):
     n = g['n']
     ref = Ref(n, edges)
     pos = g.get('pos') or 'n' * n
-    w = wn.Wordnet(lexicon=f'{lid}:1', expand='')
-    ss = {i: w.synset(f'{lid}-{i}') for i in range(n)}
+    if 'real' in g:
+        # expanded mode (see c13.build_lexicon): the graph is borrowed from the expand lexicon <lid>q, only the
+        # nodes of the 'real' mask exist in the queried lexicon, the rest are *INFERRED* placeholders
+        w = wn.Wordnet(lexicon=f'{lid}:1', expand=f'{lid}q:1')
+        idx = [i for i in range(n) if g['real'] >> i & 1]
+    else:
+        w = wn.Wordnet(lexicon=f'{lid}:1', expand='')
+        idx = list(range(n))
+    ss = {i: w.synset(f'{lid}-{i}') for i in idx}
 
     def bad(key, msg):
         V.append((key, f'{msg} graph={g}', None, g))
@@ -57,8 +64,8 @@ def check_graph(lid, g, edges, V, obs):
         return 'ok', v
     depths = [max((ref.max_depth(i) for i in range(n)), default=0), 3]
     tables = g.get('tables', [])
-    for a in range(n):
-        for b in range(n):
+    for a in idx:
+        for b in idx:
             compat = fold(pos[a]) == fold(pos[b])
             for simr in (False, True):
                 shared = bool(ref.common(a, b, False)) or simr
@@ -203,7 +210,7 @@ def check(case):
         for k, g in enumerate(case['graphs']):
             lid = f'g{k}'
             lex, edges, hypo = build_lexicon(lid, g)
-            lexs.append(lex)
+            lexs.extend(lex)
             built.append((lid, g, edges))
         env.add_resource(mk.resource(lexs, '1.0'))
         nt = 0
@@ -246,6 +253,16 @@ def space(tier, seed):
                            'tables': [tuple([2] * n), tuple(range(1, n + 1))] if same else []})
     for h in (dag_masks(4) if tier == 'quick' else range(1 << 12)):
         gs.append({'n': 4, 'loops': False, 'h': h, 'tables': tables_for(4, tier, seed)})
+    # expanded mode: path / lch / wup over a graph borrowed from an expand lexicon, all pairs of the r real
+    # synsets (r >= 2; by relabelling symmetry every subset of that size); a lowest common hypernym may be
+    # an *INFERRED* placeholder. No IC tables: information content is keyed by stored synsets.
+    for n in (2, 3):
+        for h in range(1 << (n * n)):
+            for r in range(2, n + 1):
+                gs.append({'n': n, 'loops': True, 'h': h, 'real': (1 << r) - 1, 'tables': []})
+    for h in (dag_masks(4) if tier == 'quick' else range(1 << 12)):
+        for r in ((2,) if tier == 'quick' else (2, 3)):
+            gs.append({'n': 4, 'loops': False, 'h': h, 'real': (1 << r) - 1, 'tables': []})
     if tier == 'quick':
         # the cyclic loop-free 4-node graphs: every 8th, rotating
         dags = set(dag_masks(4))
@@ -263,7 +280,7 @@ def run(tier, seed, jobs=None):
     cases = [{'graphs': gs[i:i + BATCH]} for i in range(0, len(gs), BATCH)]
     rule = ('graphs: all labelled digraphs with self-loops n<=3 (all 3^n weight tables over {1,2,5}), pos colourings, all DAGs '
             'on 4 nodes (8 tables) + every 8th cyclic loop-free 4-node digraph (quick) / all 4096 (thorough) + every 4th DAG on 5 '
-            'nodes (thorough); all ordered pairs x simulate_root; path, lch (3 depths), wup, res, jcn, lin. '
+            'nodes (thorough); the n<=3 digraphs and 4-node DAGs (thorough: all 4-node digraphs) again in expanded mode (graph borrowed from an expand lexicon, 2..n real synsets, the rest *INFERRED* placeholders; path/lch/wup only); all ordered pairs x simulate_root; path, lch (3 depths), wup, res, jcn, lin. '
             'evaluations = graphs; distinct = distinct value digests over graphs with >=1 edge.')
     return runner.run_space(PROP, tier, seed, cases, check, rule=rule, jobs=jobs, chunk=1, recheck=_one,
                             samples=[gs[3], gs[600], gs[-1]], extra={'graphs': len(gs)})
